@@ -117,6 +117,18 @@ def run(ctx):
     outside = [-0.1, -1e-9, 14.000001, 14.1, 15, -3]
     extremes = list(common.AA) + ["KKKKKKKK", "RRRRRR", "DDDDEEEE", "HHHH", "CYCY", "GGSGQN", "R", "K", "D", "KRHDECY", "PPPPKE", "RRRRH", "GRGRGRGSPRQ", "RRK"]
     mids = [7.0, 3.5, 10.5, 1.75, 5.25, 8.75, 12.25, 4.375, 9.625]        # pH values the pI bisection visits first
+    pairs = []
+    for a in range(1, 11):
+        for b in range(1, 11):
+            for A in range(20, 61):
+                for B in range(20, 61):
+                    if a * B != A * b and round(a / (a + b), 3) == round(A / (A + B), 3) and abs(a / (a + b) - 0.5) > 0.02:
+                        pairs.append((a, b, A, B))
+    ctx.rng.shuffle(pairs)
+    for a, b, A, B in pairs[:ctx.pick(6, 30)]:
+        small, large = list("K" * a + "E" * b), list("K" * A + "E" * B)
+        ctx.rng.shuffle(small); ctx.rng.shuffle(large)
+        extremes += ["".join(small), "".join(large)] if ctx.rng.random() < 0.5 else ["".join(large), "".join(small)]
     for n_, s in enumerate(extremes):
         o = lc.SP(s)
         first = pi_event(ctx, o, s) if n_ % 2 else None            # the search before or after the pH queries
